@@ -378,7 +378,7 @@ def subchecks(tier):
             prop,
             quick=3000,
             thorough=400000,
-            floors={"near_boundary": 0.209, "multi_period": 0.269, "near_boundary_linear": 0.08, "after_update": 0.1, "mixed_sign_with_phases": 0.178, "signed_schedule": 0.03, "equal_total_columns": 0.03, "int_and_float_rows": 0.08},
+            floors={"near_boundary": 0.144, "multi_period": 0.269, "near_boundary_linear": 0.08, "after_update": 0.1, "mixed_sign_with_phases": 0.178, "signed_schedule": 0.03, "equal_total_columns": 0.021, "int_and_float_rows": 0.08},
         ),
         Given("unconstrained", unconstrained_cases(), prop_unconstrained, quick=60, thorough=3000, jobs_quick=2),
     ]
